@@ -60,9 +60,9 @@ func ParseDuration(s string) (Duration, error) {
 	i := 0
 	unitI := 0
 
-	negative := int64(1)
+	negative := false
 	if s[i] == '-' {
-		negative = int64(-1)
+		negative = true
 		i++
 	}
 
@@ -112,11 +112,19 @@ func ParseDuration(s string) (Duration, error) {
 			if millis > 0 && value > math.MaxInt64/millis {
 				return Duration{}, fmt.Errorf("%w: overflow", errDuration)
 			}
+			// Accumulate with the final sign: the minimum duration has no positive counterpart to negate at the end.
 			product := value * millis
-			if total > math.MaxInt64-product {
-				return Duration{}, fmt.Errorf("%w: overflow", errDuration)
+			if negative {
+				if total < math.MinInt64+product {
+					return Duration{}, fmt.Errorf("%w: overflow", errDuration)
+				}
+				total = total - product
+			} else {
+				if total > math.MaxInt64-product {
+					return Duration{}, fmt.Errorf("%w: overflow", errDuration)
+				}
+				total = total + product
 			}
-			total = total + product
 			i++
 			hasValue = false
 			value = 0
@@ -135,7 +143,7 @@ func ParseDuration(s string) (Duration, error) {
 		return Duration{}, fmt.Errorf("%w: invalid duration", errDuration)
 	}
 
-	return Duration{value: negative * total}, nil
+	return Duration{value: total}, nil
 }
 
 // Equal returns true if the input represents the same duration
